@@ -34,8 +34,9 @@ type c37obs struct {
 	Kind      string  `json:"kind"` // "c37"
 	Policy    string  `json:"policy"`
 	Mode      int     `json:"mode"`
-	KeyBits   int     `json:"keybits"`
-	Token     int     `json:"token"` // 0 anonymous 1 username
+	KeyBits   int     `json:"keybits"`         // client key
+	SKeyBits  int     `json:"skeybits"`        // server key
+	Token     int     `json:"token"`           // 0 anonymous 1 username
 	Extra     string  `json:"extra,omitempty"` // pairs the server enables before the pair under test: "Pol/mode+Pol/mode"
 	Endpoints []epObs `json:"endpoints"`
 	EpFound   bool    `json:"ep_found"`
@@ -64,9 +65,9 @@ func summarize(eps []*ua.EndpointDescription) []epObs {
 	return out
 }
 
-func runC37Config(keydir, policy string, mode, bits, token int, extra string) (o c37obs) {
+func runC37Config(keydir, policy string, mode, bits, sbits, token int, extra string) (o c37obs) {
 	t0 := time.Now()
-	o = c37obs{Kind: "c37", Policy: policy, Mode: mode, KeyBits: bits, Token: token, Extra: extra, Stage: "setup"}
+	o = c37obs{Kind: "c37", Policy: policy, Mode: mode, KeyBits: bits, SKeyBits: sbits, Token: token, Extra: extra, Stage: "setup"}
 	defer func() {
 		if r := recover(); r != nil {
 			o.OK = false
@@ -77,7 +78,7 @@ func runC37Config(keydir, policy string, mode, bits, token int, extra string) (o
 	var sid, cid *ident
 	if bits > 0 {
 		var err error
-		if sid, err = loadOrMakeIdent(keydir, "server", bits); err != nil {
+		if sid, err = loadOrMakeIdent(keydir, "server", sbits); err != nil {
 			o.Err = "keygen: " + err.Error()
 			return
 		}
@@ -195,7 +196,7 @@ func runC37Config(keydir, policy string, mode, bits, token int, extra string) (o
 		return
 	}
 	o.Stage = "write"
-	want := int64(1000*bits + 10*mode + token + 7)
+	want := int64(1000*bits + sbits + 10*mode + token + 7)
 	st, err = writeInt(ctx, c, ts.Nodes[0], want)
 	if err != nil || st != ua.StatusOK {
 		o.Err = fmt.Sprintf("write: status=%v err=%v", st, err)
@@ -217,9 +218,9 @@ func runC37Config(keydir, policy string, mode, bits, token int, extra string) (o
 func c37(keydir string, sizes []int, args []string) {
 	quietLogs()
 	type cfg struct {
-		p       string
-		m, b, t int
-		x       string
+		p          string
+		m, b, s, t int
+		x          string
 	}
 	var cfgs []cfg
 	if len(args) > 0 {
@@ -233,9 +234,14 @@ func c37(keydir string, sizes []int, args []string) {
 				x = f[4]
 			}
 			m, _ := strconv.Atoi(f[1])
-			b, _ := strconv.Atoi(f[2])
+			bs := strings.Split(f[2], "/") // client[/server] key bits
+			b, _ := strconv.Atoi(bs[0])
+			sb := b
+			if len(bs) == 2 {
+				sb, _ = strconv.Atoi(bs[1])
+			}
 			t, _ := strconv.Atoi(f[3])
-			cfgs = append(cfgs, cfg{f[0], m, b, t, x})
+			cfgs = append(cfgs, cfg{f[0], m, b, sb, t, x})
 		}
 	} else {
 		uris := uapolicy.SupportedPolicies()
@@ -244,14 +250,16 @@ func c37(keydir string, sizes []int, args []string) {
 			p := shortName(u)
 			if p == "None" {
 				for t := 0; t < 2; t++ {
-					cfgs = append(cfgs, cfg{p, 1, 0, t, ""})
+					cfgs = append(cfgs, cfg{p, 1, 0, 0, t, ""})
 				}
 				continue
 			}
 			for _, b := range sizes {
-				for m := 2; m <= 3; m++ {
-					for t := 0; t < 2; t++ {
-						cfgs = append(cfgs, cfg{p, m, b, t, ""})
+				for _, sb := range sizes {
+					for m := 2; m <= 3; m++ {
+						for t := 0; t < 2; t++ {
+							cfgs = append(cfgs, cfg{p, m, b, sb, t, ""})
+						}
 					}
 				}
 			}
@@ -260,10 +268,12 @@ func c37(keydir string, sizes []int, args []string) {
 	// make keys up front, sequentially (the expensive part), then run configurations with bounded parallelism
 	seen := map[int]bool{}
 	for _, c := range cfgs {
-		if c.b > 0 && !seen[c.b] {
-			seen[c.b] = true
-			loadOrMakeIdent(keydir, "server", c.b)
-			loadOrMakeIdent(keydir, "client", c.b)
+		for _, kb := range []int{c.b, c.s} {
+			if kb > 0 && !seen[kb] {
+				seen[kb] = true
+				loadOrMakeIdent(keydir, "server", kb)
+				loadOrMakeIdent(keydir, "client", kb)
+			}
 		}
 	}
 	sem := make(chan struct{}, 10)
@@ -272,7 +282,7 @@ func c37(keydir string, sizes []int, args []string) {
 	for i, c := range cfgs {
 		go func(i int, c cfg) {
 			sem <- struct{}{}
-			res[i] = runC37Config(keydir, c.p, c.m, c.b, c.t, c.x)
+			res[i] = runC37Config(keydir, c.p, c.m, c.b, c.s, c.t, c.x)
 			<-sem
 			done <- i
 		}(i, c)
